@@ -19,12 +19,18 @@ public:
     size_t usage() const { return cachedCoinsUsage; }
 };
 COutPoint OP(const std::string& s) { return COutPoint(Txid::FromUint256(uint256{static_cast<uint8_t>(s.at(1) - '0')}), 0); }
-// distinct coins differ in value, height, coinbase flag and script length so that any field mix-up is visible
+// distinct coins differ in value, height, coinbase flag and script length so that any field mix-up is visible.
+// The scripts are heap allocated (longer than the prevector's inline capacity) and are GROWN IN PLACE inside the coin, so that
+// the buffer owns more capacity than it uses - as scripts built with operator<< do. Memory accounting must follow the coin that
+// is actually stored (a copy has capacity == size, a moved-from original keeps its excess), see CCoinsViewCache::SanityCheck.
 Coin MkCoin(const std::string& c)
 {
     const int k = c.at(1) - '0';
-    CScript spk; spk << OP_TRUE; for (int i = 0; i < k; ++i) spk << std::vector<unsigned char>(10 * k, (unsigned char)k);
-    return Coin(CTxOut(1000 * k + 1, spk), 100 + k, k % 2 == 0);
+    Coin coin;
+    coin.out.nValue = 1000 * k + 1; coin.nHeight = 100 + k; coin.fCoinBase = k % 2 == 0;
+    coin.out.scriptPubKey << OP_TRUE;
+    for (int i = 0; i < k + 2; ++i) coin.out.scriptPubKey << std::vector<unsigned char>(10 * k + 3, (unsigned char)k);   // grows by 1.5x steps
+    return coin;
 }
 std::string CoinName(const Coin& c)
 {
